@@ -776,6 +776,28 @@ def sympy_to_casadi_dir(ctx, n_trees, depth):
     except Exception:
         same = False
     ctx.check("sympy_to_casadi_symbol_table", "shared_table", same, {"table": str(table)})
+    # ... also across conversions that use common-sub-expression elimination, whatever the user's symbols are called:
+    # SymPy's cse labels its temporaries x0, x1, ... -- names a user may well have in the table already
+    for uname in ("x0", "x1", "q", "x12"):
+        u, a_, b_ = sp.Symbol(uname), sp.Symbol("a"), sp.Symbol("b")
+        table = {}
+        try:
+            r1, _ = stc(u + a_, symbols=table)
+            var_u = table.get(uname)
+            ecse = sp.sin(a_ + b_) * (a_ + b_) + (a_ + b_) ** 2 + sp.cos((a_ + b_) ** 2)
+            r2, _ = stc(ecse, symbols=table, cse=True)
+            r3, _ = stc(u * 2 + b_, symbols=table)
+            ok = (var_u is not None and uname in table and bool(ca.depends_on(ca.SX(r3), var_u)) and bool(ca.depends_on(ca.SX(r1), table[uname]))
+                  and set(table) == {uname, "a", "b"})
+            if ok:
+                Fc = ca.Function("F", [table[uname], table["a"], table["b"]], [ca.SX(r1) + ca.SX(r2) + ca.SX(r3)])
+                want = (0.7 + 0.3) + (math.sin(0.7) * 0.7 + 0.49 + math.cos(0.49)) + (1.4 + 0.4)
+                ok = close(float(Fc(0.7, 0.3, 0.4)), want)
+            det = {"user_symbol": uname, "table_after": sorted(table)}
+        except Exception as ex:
+            ok, det = False, {"user_symbol": uname, "exception": "%s: %s" % (type(ex).__name__, str(ex)[:200])}
+        ctx.tally("sympy_to_casadi:shared_table_with_cse")
+        ctx.check("sympy_to_casadi_symbol_table", "shared_table_across_cse", ok, det)
     hs = np.array([hash(k) & 0xFFFFFFFFFFFF for k in seen], dtype=np.float64)
     if len(hs):
         ctx.distinct(hs[:, None])
